@@ -437,6 +437,54 @@ def stuck_class(tr_rx, tr_tx, parser) -> str:
     return "stuck:consumer-blocked-no-pending-data"
 
 
+class SpinDetected(BaseException):
+    """raised by the feed guard; BaseException so that no aiohttp `except Exception` turns it into a payload error"""
+
+
+class _FeedGuard:
+    """Synchronous non-termination is invisible to a loop-iteration budget.  Every loop of the receive path that can
+    spin (`while self._more_data_available: ... payload.feed_data(b"")`) goes through DeflateBuffer.feed_data, so its
+    entries per case are counted from outside; a call either consumes coded input, produces >= 1 decoded byte or ends
+    such a loop, hence the count is linear in wire + decoded size."""
+
+    calls = 0
+    budget = 1 << 62
+    tripped = False
+    installed = False
+
+    @classmethod
+    def install(cls):
+        if cls.installed:
+            return
+        from vlib import target
+
+        target.pin()
+        from aiohttp import http_parser
+
+        orig = http_parser.DeflateBuffer.feed_data
+
+        def feed_data(self, chunk):
+            cls.calls += 1
+            if cls.calls > cls.budget:
+                cls.tripped = True
+                raise SpinDetected(f"DeflateBuffer.feed_data entered {cls.calls} times")
+            return orig(self, chunk)
+
+        http_parser.DeflateBuffer.feed_data = feed_data
+        cls.installed = True
+
+    @classmethod
+    def arm(cls, wire_len, decoded_len):
+        cls.install()
+        cls.calls = 0
+        cls.tripped = False
+        cls.budget = 10000 + 8 * (wire_len + decoded_len)
+
+    @classmethod
+    def disarm(cls):
+        cls.budget = 1 << 62
+
+
 def progress_budget(wire_len: int, decoded_len: int):
     iters = 20000 + 12 * (wire_len + decoded_len)
     ops = 20000 + 4 * (wire_len + decoded_len)
@@ -508,8 +556,13 @@ def run_client(case: dict, pre=None):
                 state["is_eof"] = r.content.is_eof()
 
     lp.iter_hooks.append(mon)
-    st, task = w.run(scenario(), max_iters=it_budget)
+    _FeedGuard.arm(len(wire), ref_exp.n)
+    try:
+        st, task = w.run(scenario(), max_iters=it_budget)
+    finally:
+        _FeedGuard.disarm()
     res = {
+        "spin": _FeedGuard.tripped,
         "run": st,
         "consumed": c,
         "mon": mon,
@@ -686,8 +739,13 @@ def run_server(case: dict):
             return True
         return obs["done"] and b"\r\n\r\n" in peer.received
 
-    st = lp.run(max_iters=it_budget, until=finished, time_limit=lp.time() + 3600)
+    _FeedGuard.arm(len(wire), ref_exp.n)
+    try:
+        st = lp.run(max_iters=it_budget, until=finished, time_limit=lp.time() + 3600)
+    finally:
+        _FeedGuard.disarm()
     res = {
+        "spin": _FeedGuard.tripped,
         "run": st,
         "consumed": c,
         "mon": mon,
@@ -848,6 +906,9 @@ def judge_progress(case, res, rec, side):
     v = []
     c: Consumed = res["consumed"]
     st = res["run"]
+    if res.get("spin"):
+        v.append((f"{side}:progress:decoder-feed-loop-does-not-terminate", f"DeflateBuffer.feed_data entered more than 10000+8*({res['wire_len']}+{res['ref'].n}) times in one case; delivered {c.n}, outcome {c.outcome}"))
+        return v
     if res.get("reader_type") == "EmptyStreamReader" and (c.ops_exceeded or st == "budget"):
         # classifier: the consumer was reading the shared EMPTY_PAYLOAD object and never saw the end marker; which
         # API it used (async-for over iter_chunks() vs. its own readchunk() loop) is part of the witness
@@ -1046,7 +1107,7 @@ def execute(case: dict, rec, ctx: str = ""):
         v += judge_memory(case, res, rec, side)
         if side == "server":
             v += judge_server(case, res, rec)
-    if res.get("escaped"):
+    if res.get("escaped") and not res.get("spin"):
         v.append((f"{side}:exception-escaped-protocol-callback:{res['escaped'][0][1]}", str(res["escaped"][0])))
     if v and case.get("token_case"):
         # trigger stratum for the content-coding token case: classified by counterfactual - the same case with the
